@@ -138,6 +138,11 @@ Fixpoint position (s : name) (l : list name) (i : Z) : option Z :=
 Definition lines_of (files : list name) (fl : list Z) (name : name) : Z :=
   match position name files 0 with Some i => nthZ fl i 0 | None => 0 end.
 
+(* re-indexing of a file index BY NAME: the position, in the merged file list, of the name the input
+   result has at index f (-1 where there is none) *)
+Definition name_index (mfiles files : list name) (f : Z) : Z :=
+  match idx files f with Ok s => default (-1) (position s mfiles 0) | _ => -1 end.
+
 Fixpoint strictly_sorted (l : list Z) : bool :=
   match l with
   | [] => true
@@ -155,8 +160,8 @@ Definition row_keys (rows : list row) : list Z := flat_map (map fst) rows.
    position of the name in the output's own file list. *)
 Definition cp_sum_b (people : table) (merged : list name) (r1 r2 out : CouplesResult) : bool :=
   let mfiles := cr_files out in
-  let fi1 f := match idx (cr_files r1) f with Ok s => default (-1) (position s mfiles 0) | _ => -1 end in
-  let fi2 f := match idx (cr_files r2) f with Ok s => default (-1) (position s mfiles 0) | _ => -1 end in
+  let fi1 := name_index mfiles (cr_files r1) in
+  let fi2 := name_index mfiles (cr_files r2) in
   let pi1 := pidx0 people (cr_people r1) merged in
   let pi2 := pidx0 people (cr_people r2) merged in
   let nf := lenZ mfiles in
@@ -205,6 +210,12 @@ Definition sel_exact_b (people : table) (rd1 rd2 merged : list name) (w : Z) : b
   list_eqb (opt_list (fst sel)) (members people rd1 w) &&
   list_eqb (opt_list (snd sel)) (members people rd2 w).
 
+(* [m] is the history of the input developers [mem] of one result: none -> the empty matrix (a nil
+   DenseHistory), one -> that developer's history.  (Two or more members of one result cannot be expressed
+   with the two-argument mergeMatrices at all.) *)
+Definition hist_of (ph : list matrix) (mem : list Z) (m : matrix) : Prop :=
+  (mem = [] /\ m = []) \/ (exists i, mem = [i] /\ idx ph i = Ok m).
+
 (* every input identity is spelled exactly like the merged identity it belongs to *)
 Definition literal_b (people : table) (rd merged : list name) : bool :=
   forallb (fun s => name_eqb (nthZ merged (Final (lookup0 people s)) nil) s) rd.
@@ -220,10 +231,13 @@ Definition has_first (people : table) (s : name) : bool :=
   match lookup people s with Some m => 0 <=? First m | None => false end.
 Definition has_second (people : table) (s : name) : bool :=
   match lookup people s with Some m => 0 <=? Second m | None => false end.
+Definition has_member (people : table) (rd1 rd2 : list name) (w : Z) : bool :=
+  nonempty (members people rd1 w) || nonempty (members people rd2 w).
 Definition wf_table_b (people : table) (rd1 rd2 merged : list name) : bool :=
   keys_nodup name_eqb people && forallb (entry_ok rd1 rd2 merged) people &&
   forallb (has_first people) rd1 && forallb (has_second people) rd2 &&
-  str_nodup rd1 && str_nodup rd2.
+  str_nodup rd1 && str_nodup rd2 && str_nodup merged &&
+  forallb (has_member people rd1 rd2) (seqZ 0 (length merged)).
 
 (* interaction matrix: sums over the members, columns 0 and 1 kept, column 2+k re-indexed *)
 Definition cellZ (m : matrix) (i c : Z) : Z := nthZ (nthZ m i []) c 0.
@@ -234,6 +248,9 @@ Definition pm_spec_cell (people : table) (rd1 rd2 : list name) (pm1 pm2 : matrix
                    else sumZ (map (fun k => cellZ pm i (2 + k)) (members people rd (c - 2))))
                 (members people rd w)) in
   part rd1 pm1 + part rd2 pm2.
+(* an interaction matrix with one row of n + 2 cells for each of the n developers *)
+Definition rect_b (n : nat) (pm : matrix) : bool :=
+  Nat.eqb (length pm) n && forallb (fun r => Nat.eqb (length r) (n + 2)) pm.
 Definition pm_rows_b (people : table) (merged : list name) (r1 r2 : BurndownResult) (out : matrix) : bool :=
   let nm := length merged in
   (lenZ out =? Z.of_nat nm) &&
